@@ -160,13 +160,20 @@ async def run_concurrent(world, case):
         outs = c03.make_outputs(d['outs'])
         res = {'pre_desc': pre_desc, 'outs': outs}
         results[b] = res
+        signing = bool(d.get('sign'))
+        fault = signing and (bool(case.get('locked')) or c03.GHOST in case['funding'])
         try:
-            tx = await Transaction.create(pre, outs, funding, change_acc, sign=False)
+            tx = await Transaction.create(pre, outs, funding, change_acc, sign=signing)
         except InsufficientFundsError:
             res['status'] = 'failed'
             return
         except Exception as e:  # noqa
-            res['status'] = 'EXC ' + type(e).__name__ + ':' + str(e)[:80]
+            if fault:
+                # injected fault at the signing step (locked account / no key for the address): a failed build
+                res['status'] = 'failed'
+                res['signfail'] = True
+            else:
+                res['status'] = 'EXC ' + type(e).__name__ + ':' + str(e)[:80]
             return
         res['tx'] = tx
         res['added'] = [rid_of.get(t.txo_ref.id, -1) for t in tx.inputs[len(pre):]]
@@ -202,6 +209,9 @@ async def run_concurrent(world, case):
 
     ins.install()
     ledger.network = FailingNetwork()
+    if case.get('locked'):
+        for acc in funding:
+            acc.encrypt('password')      # wallet locked: funding works, signing cannot
     try:
         async def guarded(b, d):
             try:
@@ -212,6 +222,9 @@ async def run_concurrent(world, case):
         await asyncio.gather(*tasks)
     finally:
         ins.restore()
+        if case.get('locked'):
+            for acc in funding:
+                acc.decrypt('password')
         c03.RecordingRandom.tagger = None
         ledger.network = old_network
         ledger._utxo_reservation_lock = asyncio.Lock()
@@ -223,7 +236,8 @@ async def run_concurrent(world, case):
     for a, b, who in c03.RecordingRandom.log:
         shuffles_by.setdefault(who, []).append([[rid_of[i] for i in a], [rid_of[i] for i in b]])
     obs = {'rows_before': rows_before, 'rows_after': rows_after, 'events': events, 'results': results,
-           'asked': ins.asked, 'shuffles': shuffles, 'shuffles_by': shuffles_by, 'rid_of': rid_of}
+           'asked': ins.asked, 'shuffles': shuffles, 'shuffles_by': shuffles_by, 'rid_of': rid_of,
+           'unsignable': [r['rid'] for r in await world.rows([world.accounts[c03.GHOST]])]}
     impl = {'builds': [], 'reserved': reserved_after,
             'wallet': sorted(r['rid'] for r in c03.spendable_rows(rows_after))}
     for b in range(len(case['builds'])):
@@ -234,7 +248,7 @@ async def run_concurrent(world, case):
             continue
         impl['builds'].append({'phase': r.get('status', 'never-ran'),
                                'held': r.get('added', []) if r.get('status') == 'finish' else [],
-                               'rounds': len(ins.asked.get(b, [])) - (1 if r.get('status') == 'failed' else 0),
+                               'rounds': len(ins.asked.get(b, [])) - (1 if r.get('status') == 'failed' and not r.get('signfail') else 0),
                                'took': r.get('added', []) if r.get('status') != 'failed' else
                                [rid_of[t] for t in ins.released.get(b, []) if t in rid_of]})
     return impl, obs
@@ -280,10 +294,10 @@ def model_run(model, case, obs, sched, upto=None):
     builds = []
     for b, d in enumerate(case['builds']):
         builds.append({'strategy': case['strategy'], 'amounts': obs['asked'].get(b, []),
-                       'broadcast': d['action'] == 'broadcast'})
+                       'broadcast': d['action'] == 'broadcast', 'sign': bool(d.get('sign'))})
     return model.call('run', fpb=case['fpb'], shuffles=obs['shuffles'], builds=builds,
                       sched=sched if upto is None else sched[:upto], wallet=c03.model_wallet(obs['rows_before']),
-                      use_lock=True)
+                      use_lock=True, locked=bool(case.get('locked')), unsignable=obs['unsignable'])
 
 
 def monitor(case, impl, obs):
@@ -376,7 +390,8 @@ def linearize(c03_model, case, impl, obs):
             d = case['builds'][b]
             r = obs['results'][b]
             req = dict(fpb=case['fpb'], fpnc=case['fpnc'], strategy=case['strategy'], shuffles=obs['shuffles_by'].get(b, []),
-                       pre=r['pre_desc'], outs=[c03.out_desc(o, None) for o in r['outs']], wallet=wallet)
+                       pre=r['pre_desc'], outs=[c03.out_desc(o, None) for o in r['outs']], wallet=wallet,
+                       sign=bool(d.get('sign')), locked=bool(case.get('locked')), unsignable=obs['unsignable'])
             try:
                 m = c03_model.call('create', **req)
             except vlib.ModelError as e:
@@ -387,10 +402,19 @@ def linearize(c03_model, case, impl, obs):
                 for e in wallet:
                     if e[0][0] in taken[b]:
                         e[1] = True
+            elif m.get('result') == 'SignFails':
+                # funded, then tx.sign raises: the inputs stay reserved until the handler's release_tx runs
+                want[b] = {'result': 'SignFails'}
+                taken[b] = set(m['held'])
+                for e in wallet:
+                    if e[0][0] in taken[b]:
+                        e[1] = True
             else:
                 want[b] = {'result': m.get('result')}
                 taken[b] = set()
-            if r.get('status') == 'failed':
+            if r.get('signfail'):
+                got[b] = {'result': 'SignFails'}
+            elif r.get('status') == 'failed':
                 got[b] = {'result': 'InsufficientFundsError'}
             else:
                 got[b] = {'result': 'ok', 'added': r.get('added'), 'change': r.get('change')}
@@ -419,6 +443,11 @@ def gen_case(rng, tier):
     amounts = [o['amount'] - 148 * fpb for t in txs for o in t['outs']]
     total = sum(a for a in amounts if a > 0)
     n = rng.randrange(2, 13)
+    fund = c03.GHOST if rng.random() < 0.15 else 0       # the ghost account: no key can be found for its addresses
+    for t in txs:
+        for o in t['outs']:
+            o['acct'] = fund
+    locked = rng.random() < 0.25
     builds = []
     for b in range(n):
         c = rng.random()
@@ -436,14 +465,15 @@ def gen_case(rng, tier):
         if rng.random() < 0.1:
             outs = []
             pre = [{'kind': 'external', 'amount': max(1, 148 * fpb + rng.choice([1, 10 * fpb, 56 * fpb, 56 * fpb + 1000]))}]
-        builds.append({'outs': outs, 'pre': pre,
+        builds.append({'outs': outs, 'pre': pre, 'sign': (not pre) and rng.random() < 0.5,
                        'action': rng.choice(['release', 'release', 'broadcast', 'broadcast', 'broadcast_fail', 'hold']),
                        'delay': rng.choice([0, 0, 0, 1, 2, 5]),
                        'hold_yields': rng.choice([0, 0, 1, 3, 10, 30]),
                        'yields': [rng.choice([0, 0, 0, 1, 1, 2, 3, 7]) for _ in range(40)]})
     order = list(range(n))
     rng.shuffle(order)
-    return {'kind': 'concurrent', 'fpb': fpb, 'fpnc': 0, 'strategy': strategy, 'funding': [0], 'change': 0, 'txs': txs,
+    return {'kind': 'concurrent', 'fpb': fpb, 'fpnc': 0, 'strategy': strategy, 'funding': [fund], 'change': fund, 'txs': txs,
+            'locked': locked,
             'reserved': [], 'builds': builds, 'start_order': order, 'seed': rng.getrandbits(32)}
 
 
@@ -454,6 +484,11 @@ async def check_concurrent(run, world, model, case, kind, c03_model=None):
     run.case(dict(case, origin=kind), nontrivial=sum(1 for b in impl['builds'] if b['took']) >= 2)
     run.count('builds:%d' % n)
     run.count('strategy:%s' % case['strategy'])
+    if case.get('locked'):
+        run.count('locked-account')
+    if c03.GHOST in case['funding']:
+        run.count('keys-not-found account')
+    run.count('builds failing while signing', sum(1 for r in obs['results'].values() if r.get('signfail')))
     for b in impl['builds']:
         run.count('phase:%s' % b['phase'].split(' ')[0])
     waits = 0
